@@ -507,6 +507,15 @@ theorem dchoose_total_ieee (p : List (Ieee ρ)) (hlen : p.length ≤ 4294967296)
   have hne : p ≠ [] := by obtain ⟨q, hq, _⟩ := hpos; exact List.ne_nil_of_mem hq
   exact dchoose_total_abs _ p hne (ieee_div_self ρ _ q hq) (ieee_random_lt_one ρ x hx)
 
+/-- i.i.d. generation from a probability-like vector in rounded arithmetic: at most `2^32` entries, each `+0.0` or in `(0, 1]`, one of
+    them positive — whatever their computed sum is (it need not be `1.0`), the loop returns -/
+theorem iidLoop_total_ieee (p : List (Ieee ρ)) (hlen : p.length ≤ 4294967296) (hent : ∀ q ∈ p, Sm 1 q.1)
+    (hpos : ∃ q ∈ p, Pos q.1) : ∀ (n : Nat) (r : Rng) (acc : Array Nat), ∃ out, (iidLoop p n r acc).1 = some out := by
+  obtain ⟨_, hP⟩ := foldl_Sm ρ p zero 0 (Or.inl rfl) hent (by omega)
+  obtain ⟨q, hq, _⟩ := hP (Or.inr hpos)
+  have hne : p ≠ [] := by obtain ⟨q, hq, _⟩ := hpos; exact List.ne_nil_of_mem hq
+  exact iidLoop_total_abs p hne (ieee_div_self ρ _ q hq) (ieee_random_lt_one ρ)
+
 theorem randomNum_ieee (r : Rng) : ∃ x, x < 4294967296 ∧ (randomNum (α := Ieee ρ) r).1 = div (ofNat x) (ofNat 4294967296) := by
   refine ⟨(r.randomNum).1, ?_, rfl⟩
   unfold Rng.randomNum
